@@ -280,6 +280,7 @@ func c13Composite(c *Ctx) {
 
 	// ---- sign / step on [-1, -2^-a] U [2^-a, 1] (the default composite polynomial: a = 30), max / min on [-0.5, 0.5]
 	cmp := comparison.NewEvaluator(x.params, minEvl, minimax.NewPolynomial(comparison.DefaultCompositePolynomialForSign))
+	c13Stages(c, x, minEvl, slots)
 	for _, a := range []float64{30, 20, 5} {
 		vals := c13Sweep(c, slots, math.Exp2(-a), 1)
 		for i := 0; i < slots; i += 2 {
